@@ -66,7 +66,16 @@ def match(p, t, env):
             return False
         if len(p[2]) != len(t[2]):
             return False
-        return all(match(q, a, env) for q, a in zip(p[2], t[2]))
+        e2 = dict(env)
+        if all(match(q, a, e2) for q, a in zip(p[2], t[2])):
+            env.update(e2)
+            return True
+        if len(p[2]) == 2 and c.split("::")[-1] in ("min", "max", "wrapping_add", "saturating_add", "checked_add", "wrapping_mul", "checked_mul") and "Address" not in c:
+            e2 = dict(env)
+            if match(p[2][0], t[2][1], e2) and match(p[2][1], t[2][0], e2):
+                env.update(e2)
+                return True
+        return False
     if k == 'F':
         if t[0] == 'field' and t[2] == p[2]:
             return match(p[1], t[1], env)
@@ -91,9 +100,24 @@ def match(p, t, env):
         if t[0] != 'bin':
             return False
         op = t[1].replace("WithOverflow", "")
-        if op != p[1]:
+        SW = {"Lt": "Gt", "Le": "Ge", "Gt": "Lt", "Ge": "Le"}
+        if op == p[1]:
+            e2 = dict(env)
+            if match(p[2], t[2], e2) and match(p[3], t[3], e2):
+                env.update(e2)
+                return True
+            if op in ("Add", "Mul", "BitAnd", "BitOr", "BitXor", "Eq", "Ne"):
+                e2 = dict(env)
+                if match(p[2], t[3], e2) and match(p[3], t[2], e2):
+                    env.update(e2)
+                    return True
             return False
-        return match(p[2], t[2], env) and match(p[3], t[3], env)
+        if SW.get(op) == p[1]:
+            e2 = dict(env)
+            if match(p[2], t[3], e2) and match(p[3], t[2], e2):
+                env.update(e2)
+                return True
+        return False
     if k == 'CLO':
         if t[0] == 'agg' and t[2] is None and "{closure" in str(t[1]):
             env[p[1]] = t
